@@ -228,15 +228,60 @@ fn gen_range(rng: &mut Rng, len: u64, oob_ok: bool) -> String {
     }
 }
 
+/// nested directories that are created and emptied again (hierarchy-shaped): `list_dir` at every level must not
+/// report the directories left behind
+const DEEP_KEYS: [&str; 9] = ["a/b/c/k", "a/b/c/l", "a/b/m", "a/n", "a/b/c/d/e/f", "p/q/r/s", "p/q/t", "u", "a/b/c2/k"];
+// `u/`, `a/n/` name a key and `u/v/` lies below one: erase_prefix there is `ok` with nothing erased (repaired F-C08-9)
+const DEEP_PREFIXES: [&str; 13] = ["~", "a/", "a/b/", "a/b/c/", "a/b/c/d/", "a/b/c/d/e/", "p/", "p/q/", "p/q/r/", "a/b/c2/", "u/", "a/n/", "u/v/"];
+/// NOT hierarchy-shaped: a key is a directory prefix of another key (`set a/b/c` while `a/b` is a file fails ...).
+/// The ordered-map specification does not apply (`cfg ... spec=0`); the driver compares with the directory-tree model only.
+const CLASH_KEYS: [&str; 8] = ["a", "a/b", "a/b/c", "a/b/c/k", "d", "d/e", "a/x", "d/e/f/g"];
+const CLASH_PREFIXES: [&str; 8] = ["~", "a/", "a/b/", "a/b/c/", "d/", "d/e/", "d/e/f/", "a/x/"];
+
 pub fn gen_case(rng: &mut Rng, kind: &str, nops: usize, out: &mut Vec<String>) {
+    gen_case_univ(rng, kind, nops, &KEYS, &PREFIXES, true, out)
+}
+
+/// the scripted history of F-C08-2 at depth: create nested directories, empty them, list every level, erase a middle level
+pub fn gen_case_emptied(rng: &mut Rng, kind: &str, out: &mut Vec<String>) {
     out.push(format!("c08 cfg store={}", kind));
-    let nokeys = if rng.chance(1, 3) { 3 } else { KEYS.len() };
+    let listall = |out: &mut Vec<String>| {
+        for p in ["~", "a/", "a/b/", "a/b/c/", "a/b/c/d/"] { out.push(format!("c08 op listd p={}", p)); }
+        out.push("c08 op list".to_string());
+        out.push("c08 op listp p=a/b/".to_string());
+        out.push("c08 op sizep p=a/".to_string());
+    };
+    out.push(format!("c08 op set k=a/b/c/k v={}", hex(&rng.bytes(3))));
+    listall(out);
+    out.push("c08 op erase k=a/b/c/k".to_string());
+    listall(out);
+    out.push(format!("c08 op set k=a/b/c/d/e v={}", hex(&rng.bytes(2))));
+    out.push(format!("c08 op set k=a/n v={}", hex(&rng.bytes(4))));
+    listall(out);
+    out.push("c08 op erasev ks=a/b/c/d/e,a/b/c/k".to_string());
+    listall(out);
+    out.push(format!("c08 op setp kov=a/b/c/l@2={};a/b/m@0={}", hex(&rng.bytes(2)), hex(&rng.bytes(1))));
+    out.push("c08 op erasep p=a/b/c/".to_string());
+    listall(out);
+    out.push("c08 op erasep p=a/b/".to_string());
+    listall(out);
+    out.push("c08 op erase k=a/n".to_string());
+    listall(out);
+    out.push("c08 op erasep p=~".to_string());
+    listall(out);
+    out.push(format!("c08 op set k=a/b/c/k v={}", hex(&rng.bytes(1))));
+    listall(out);
+}
+
+pub fn gen_case_univ(rng: &mut Rng, kind: &str, nops: usize, keys: &[&str], prefixes: &[&str], spec_on: bool, out: &mut Vec<String>) {
+    out.push(if spec_on { format!("c08 cfg store={}", kind) } else { format!("c08 cfg store={} spec=0", kind) });
+    let nokeys = if rng.chance(1, 3) { 3 } else { keys.len() };
     // the third-party back ends are specified for non-empty values / non-empty ranges only
     let allow_empty = matches!(kind, "memory" | "fs" | "fsdio" | "usagelog" | "perf" | "zip");
     let mut lens: std::collections::BTreeMap<String, u64> = Default::default();
     for _ in 0..nops {
-        let k = KEYS[rng.below(nokeys as u64) as usize];
-        let p = PREFIXES[rng.below(PREFIXES.len() as u64) as usize];
+        let k = keys[rng.below(nokeys as u64) as usize];
+        let p = prefixes[rng.below(prefixes.len() as u64) as usize];
         let cur = *lens.get(k).unwrap_or(&0);
         let line = match rng.below(16) {
             0 | 1 | 2 => {
@@ -248,7 +293,7 @@ pub fn gen_case(rng: &mut Rng, kind: &str, nops: usize, out: &mut Vec<String>) {
                 let cnt = rng.range(1, 3);
                 let mut parts = vec![];
                 for j in 0..cnt {
-                    let kk = if j > 0 && rng.chance(1, 2) { k } else { KEYS[rng.below(nokeys as u64) as usize] };
+                    let kk = if j > 0 && rng.chance(1, 2) { k } else { keys[rng.below(nokeys as u64) as usize] };
                     let c = *lens.get(kk).unwrap_or(&0);
                     let off = rng.below(c + 4);
                     let n = if allow_empty && rng.chance(1, 10) { 0 } else { rng.range(1, 6) };
@@ -260,7 +305,7 @@ pub fn gen_case(rng: &mut Rng, kind: &str, nops: usize, out: &mut Vec<String>) {
             }
             5 => { lens.remove(k); format!("c08 op erase k={}", k) }
             6 => {
-                let k2 = KEYS[rng.below(nokeys as u64) as usize];
+                let k2 = keys[rng.below(nokeys as u64) as usize];
                 lens.remove(k); lens.remove(k2);
                 format!("c08 op erasev ks={},{}", k, k2)
             }
@@ -289,6 +334,7 @@ pub fn gen_case(rng: &mut Rng, kind: &str, nops: usize, out: &mut Vec<String>) {
 }
 
 pub fn generate(tier: &str, seed: u64) -> Vec<String> {
+    if tier == "fs" { return generate_fs(seed); }
     let mut rng = Rng::new(seed);
     let thorough = tier == "thorough";
     let mut out = vec![];
@@ -299,6 +345,34 @@ pub fn generate(tier: &str, seed: u64) -> Vec<String> {
             let nops = if thorough && rng.chance(1, 10) { 200 } else { rng.range(4, 30) as usize };
             gen_case(&mut rng, kind, nops, &mut out);
         }
+        if kind == "fs" || kind == "fsdio" {
+            gen_fs_extra(&mut rng, kind, if thorough { 40 } else { 4 }, &mut out);
+        }
+    }
+    out
+}
+
+/// extra cases for the filesystem kinds: emptied nested directories and clashing key sets
+pub fn gen_fs_extra(rng: &mut Rng, kind: &str, n: usize, out: &mut Vec<String>) {
+    for i in 0..n {
+        if i % 4 == 0 { gen_case_emptied(rng, kind, out); }
+        let nops = rng.range(6, 40) as usize;
+        gen_case_univ(rng, kind, nops, &DEEP_KEYS, &DEEP_PREFIXES, true, out);
+        let nops = rng.range(6, 40) as usize;
+        gen_case_univ(rng, kind, nops, &CLASH_KEYS, &CLASH_PREFIXES, false, out);
+    }
+}
+
+/// `--tier fs`: only the filesystem kinds (standard, emptied-directories and clashing universes)
+pub fn generate_fs(seed: u64) -> Vec<String> {
+    let mut rng = Rng::new(seed);
+    let mut out = vec![];
+    for kind in ["fs", "fsdio"] {
+        for _ in 0..30 {
+            let nops = rng.range(4, 30) as usize;
+            gen_case(&mut rng, kind, nops, &mut out);
+        }
+        gen_fs_extra(&mut rng, kind, 40, &mut out);
     }
     out
 }
